@@ -5,6 +5,8 @@ package c15
 import (
 	"encoding/json"
 	"fmt"
+	"github.com/rs/zerolog"
+	"io"
 	"net"
 	"net/url"
 	"sort"
@@ -37,9 +39,11 @@ type Case struct {
 	BodyKind string `json:"body_kind,omitempty"`
 	Chunked  bool   `json:"chunked_transfer,omitempty"`
 	// ReadsBody: the rule's pipeline contains a step that reads Request.Body
-	ReadsBody bool        `json:"pipeline_reads_body,omitempty"`
-	Headers   [][2]string `json:"client_headers,omitempty"`
-	Peer      string      `json:"peer"`
+	ReadsBody bool `json:"pipeline_reads_body,omitempty"`
+	// Trace: the proxy logs at trace level (request and response are dumped by a middleware installed only then)
+	Trace   bool        `json:"log_level_trace,omitempty"`
+	Headers [][2]string `json:"client_headers,omitempty"`
+	Peer    string      `json:"peer"`
 }
 
 const (
@@ -68,6 +72,7 @@ type fixture struct {
 	apps *hx.Apps
 }
 
+// newFixture: the optional flags are (pipeline reads the body, log level trace).
 func newFixture(rw Rewrite, slashes string, withPipelineHeaders bool, readsBody ...bool) (*fixture, error) {
 	mf, err := hx.RealFactory(catalogue())
 	if err != nil {
@@ -76,7 +81,12 @@ func newFixture(rw Rewrite, slashes string, withPipelineHeaders bool, readsBody 
 
 	conf := &config.Configuration{}
 	conf.Serve.Proxy.TrustedProxies = &[]string{"10.0.0.1"}
-	apps := hx.NewApps(conf, nil)
+	logger := zerolog.Nop()
+	if len(readsBody) > 1 && readsBody[1] {
+		logger = zerolog.New(io.Discard).Level(zerolog.TraceLevel)
+	}
+
+	apps := hx.NewAppsWithLogger(conf, nil, logger)
 
 	err = apps.Load(mf, func(mode config.OperationMode) []*rulecfg.RuleSet {
 		rs := &rulecfg.RuleSet{Version: rulecfg.CurrentRuleSetVersion, Name: "c15"}
@@ -318,6 +328,10 @@ func judge(c *engine.Ctx, f *fixture, cs *Case) {
 			sig += "/pipeline-reads-body/" + cs.BodyKind
 		}
 
+		if cs.Trace {
+			sig += "/log-level-trace"
+		}
+
 		c.Violation(sig, fmt.Sprintf("%+v: got %d bytes %.40q", *cs, len(up.Body), up.Body), cs)
 	}
 
@@ -442,7 +456,7 @@ func Check() *engine.Check {
 			"(url) request paths of 1-3 segments over {api,v1,a%20b,%C3%A4,x%2Fy,~t,%7Et} x 6 queries (repeated, encoded, empty-valued, " +
 			"semicolon) x every rewrite configuration (scheme x 5 strip prefixes x 3 add prefixes x 4 query removals) x encoded-slash settings; " +
 			"(body) 9 method tokens (incl. lower / mixed case and an extension method) x bodies of 0/1/70 KiB x URLs x rewrites, and 4 methods x 7 typed bodies (JSON/form/YAML that decode or not, text) x " +
-			"known/unknown length x pipeline with/without a step reading Request.Body; (headers) pipeline headers X-User/Authorization/Host against all subsets of " +
+			"known/unknown length x pipeline with/without a step reading Request.Body x log level silent/trace (requests with credentials); (headers) pipeline headers X-User/Authorization/Host against all subsets of " +
 			"same-named client headers in 4 casings, single and repeated, and client-sent Forwarded/X-Forwarded-* from trusted and untrusted peers; " +
 			"oracle: reference rewrite on octets (strip then add on the escaped path, escapes byte-identical, no double encoding), query as decoded " +
 			"multiset minus removed names, method/body identical, exactly one field per pipeline header, no X-Forwarded-Method/-Uri/-Path, " +
@@ -574,14 +588,15 @@ func run(c *engine.Ctx) {
 
 	// (body, typed): bodies that do and do not decode under their Content-Type, with and without a pipeline step reading the
 	// body, with known and unknown length: what the upstream receives is what the client sent
-	for _, reads := range []bool{false, true} {
+	for _, rt := range [][2]bool{{false, false}, {true, false}, {false, true}, {true, true}} {
+		reads, trace := rt[0], rt[1]
 		idx++
 
 		if !c.Mine(idx) {
 			continue
 		}
 
-		f, err := newFixture(Rewrite{}, "off", false, reads)
+		f, err := newFixture(Rewrite{}, "off", false, reads, trace)
 		if err != nil {
 			c.Infra("fixture: %v", err)
 
@@ -592,12 +607,14 @@ func run(c *engine.Ctx) {
 			for _, kind := range typedBodyOrder {
 				for _, chunked := range []bool{false, true} {
 					judge(c, f, &Case{Part: "body", Slashes: "off", Method: m, Path: "/api/v1", Query: "a=1", BodyKind: kind,
-						Chunked: chunked, ReadsBody: reads, Peer: untrustedPeer})
+						Chunked: chunked, ReadsBody: reads, Trace: trace, Peer: untrustedPeer,
+						Headers: [][2]string{{"Authorization", "Bearer client-token"}, {"Cookie", "c=1"}}})
 				}
 			}
 
 			for _, n := range []int{1, 70 * 1024} {
-				judge(c, f, &Case{Part: "body", Slashes: "off", Method: m, Path: "/api/v1", BodySize: n, Chunked: true, ReadsBody: reads, Peer: untrustedPeer})
+				judge(c, f, &Case{Part: "body", Slashes: "off", Method: m, Path: "/api/v1", BodySize: n, Chunked: true, ReadsBody: reads, Trace: trace,
+					Peer: untrustedPeer})
 			}
 		}
 
@@ -659,7 +676,7 @@ func replay(c *engine.Ctx, raw json.RawMessage) {
 		return
 	}
 
-	f, err := newFixture(cs.Rewrite, cs.Slashes, cs.Part == "headers", cs.ReadsBody)
+	f, err := newFixture(cs.Rewrite, cs.Slashes, cs.Part == "headers", cs.ReadsBody, cs.Trace)
 	if err != nil {
 		c.Infra("fixture: %v", err)
 
